@@ -174,6 +174,21 @@ EXTRA9 = {
 }
 for _k, _v in EXTRA9.items():
     CLAIMS[_k] = (CLAIMS[_k][0], CLAIMS[_k][1] + _v, CLAIMS[_k][2])
+EXTRA10 = {
+ "C03": " The parent column is stored on every path of the per-rank publication loop.",
+ "C05": " Every device kernel of a type enters the per-kernel statistics (no further row condition); no generator / lambda reading a loop-bound variable is kept beyond its iteration.",
+ "C09": " The three result members are decided on the final state of an abstract run of critical_path() on a small concrete graph (path, events of all its nodes incl. event 0, exactly the consecutive edge objects).",
+ "C11": " In-place decoding expands exactly the ids 0 <= id < len(table); combining tables keeps the first table's ids and appends in table order (no id from the walk order of a set of strings).",
+ "C12": " The links the device rule reads are the mutual links decided for C02.",
+ "C13": " Depth and height are also decided by abstract runs on a small concrete tree with a device activity below two host levels.",
+ "C15": " The correlation ids are not filtered by their value (id 0 is valid).",
+ "C18": " A NameFilter built for the decoded column and used with a table matches ids against the id column; the side grids give a sync name the id 0.",
+ "C19": " What critical_path() and its helpers read must be restored (the path is re-run on a restored graph).",
+ "C20": " The flow pairs are the same with and without only_show_critical_events.",
+}
+for _k, _v in EXTRA10.items():
+    CLAIMS[_k] = (CLAIMS[_k][0], CLAIMS[_k][1] + _v, CLAIMS[_k][2])
+CLAIMS["C09"] = (CLAIMS["C09"][0] + ", abstract run of critical_path() on a small concrete graph (final state of the result members)", CLAIMS["C09"][1], CLAIMS["C09"][2])
 TECH9 = {
  "C03": ("AST discipline rules for both builders", "abstract runs of the stack scan of both builders on all well-nested endpoint sequences of up to 4 events (AST discipline rules as diagnostics)"),
  "C08": ("dominance rule for validation", "dominance rule for validation plus abstract runs of _validate_graph on one-edge graphs"),
